@@ -32,9 +32,98 @@ def _filler(n, dtype):
     return f.astype(dtype)
 
 
-def arr(values, dtype=None, layout="contig"):
-    """the ndarray handed to the implementation: the numbers `values` in memory layout `layout`"""
+HISTORIES = ("none", "refill", "hash_twin", "bytes_twin", "dtype_twin", "repeat", "dashO")
+
+# per-case state, set by the runner (`begin`) around every `run_impl`
+_ST = {"layouts": ("contig",), "hist": "none", "pass": 0, "bufs": [], "i": 0}
+
+
+def decorate(case, rng, allow_dash_o=True):
+    """add the layout / history dimensions to a generated case (kept in the case, so that a replay repeats them)"""
+    if not isinstance(case, dict) or "layout" in case:
+        return case
+    case["layout"] = ",".join(pick_layout(rng) for _ in range(3))
+    r = rng.random()
+    if r < 0.62:
+        h = "none"
+    elif r < 0.78:
+        h = "refill"
+    elif r < 0.83:
+        h = "hash_twin"
+    elif r < 0.88:
+        h = "bytes_twin"
+    elif r < 0.92:
+        h = "dtype_twin"
+    elif r < 0.96 or not allow_dash_o:
+        h = "repeat"
+    else:
+        h = "dashO"
+    case["hist"] = h
+    return case
+
+
+def begin(case, pass_):
+    lay = case.get("layout") if isinstance(case, dict) else None
+    _ST["layouts"] = tuple(lay.split(",")) if lay else ("contig",)
+    _ST["hist"] = (case.get("hist") if isinstance(case, dict) else None) or "none"
+    _ST["pass"] = pass_
+    _ST["i"] = 0
+    if pass_ <= 1:
+        _ST["bufs"] = []
+
+
+def end():
+    _ST.update({"layouts": ("contig",), "hist": "none", "pass": 0, "bufs": [], "i": 0})
+
+
+def run_with_history(run_impl, case):
+    """run the implementation on a case the way its `hist` says: possibly after a prelude that hands the library
+    the same array objects with other contents (refill), or look-alike series (twins), or the same call (repeat)"""
+    h = (case.get("hist") if isinstance(case, dict) else None) or "none"
+    try:
+        if h in ("none", "dashO"):
+            begin(case, 0)
+            return run_impl(case)
+        begin(case, 1)
+        try:
+            import copy
+            run_impl(copy.deepcopy(case))       # whatever the prelude leaves in its case is dropped
+        except Exception:  # noqa: the prelude's outcome is irrelevant
+            pass
+        begin(case, 2)
+        return run_impl(case)
+    finally:
+        end()
+
+
+def arr(values, dtype=None, layout=None):
+    """the ndarray handed to the implementation: the numbers `values`, in the memory layout and with the object
+    history of the current case"""
     a = np.array(values) if dtype is None else np.array(values, dtype=dtype)
+    i = _ST["i"]
+    _ST["i"] = i + 1
+    if layout is None:
+        layout = _ST["layouts"][i % len(_ST["layouts"])]
+    h, ps = _ST["hist"], _ST["pass"]
+    if a.ndim != 1 or a.dtype.kind not in "fiu":
+        return a
+    if ps == 1:
+        if h == "refill":
+            buf = _lay(interior_decoy(a), layout)
+            _ST["bufs"].append(buf)
+            return buf
+        tw = {"hash_twin": hash_twin, "bytes_twin": bytes_twin, "dtype_twin": dtype_twin}.get(h)
+        t = tw(a) if tw else None
+        return _lay(a if t is None else t, layout)
+    if ps == 2 and h == "refill":
+        bufs = _ST["bufs"]
+        if i < len(bufs) and bufs[i].shape == a.shape and bufs[i].dtype == a.dtype:
+            bufs[i][...] = a
+            return bufs[i]
+    return _lay(a, layout)
+
+
+def _lay(a, layout):
     if layout == "contig" or a.ndim != 1:
         return a
     n = len(a)
@@ -51,7 +140,6 @@ def arr(values, dtype=None, layout="contig"):
         v = b[::-1]
     else:
         raise ValueError(layout)
-    assert v.shape == a.shape and np.array_equal(v, a, equal_nan=True) if a.dtype.kind == "f" else np.array_equal(v, a)
     return v
 
 
